@@ -10,7 +10,8 @@ from vlib import worldops
 ID = 'C03'
 LEVEL = 'exploration'
 BUDGET = {'quick': 1500, 'thorough': 6000}
-RULE = ('Hypothesis-generated (a) handler class hierarchies (2-6 classes decorated with event_handler(*names, '
+RULE = ('Exceptions raised by callbacks are subclasses of built-in exception types in turn (KeyError, LookupError, AttributeError, StopIteration, RuntimeError). '
+        'Hypothesis-generated (a) handler class hierarchies (2-6 classes decorated with event_handler(*names, '
         '**mappings) over 5 event names and 6 extra method names, subclasses extending/overriding, undecorated '
         'and empty-decorated intermediates, plain mixins) and (b) histories over a plain EventDispatcher: '
         'add_handler (also repeated), remove_handler (also of strangers), dispatch(name, *args, **kwargs) with '
@@ -144,6 +145,29 @@ class UserError(Exception):
     """raised by a callback of the program under test"""
 
 
+class UserKeyError(UserError, KeyError):
+    pass
+
+
+class UserLookupError(UserError, LookupError):
+    pass
+
+
+class UserAttributeError(UserError, AttributeError):
+    pass
+
+
+class UserStopIteration(UserError, StopIteration):
+    pass
+
+
+class UserRuntimeError(UserError, RuntimeError):
+    pass
+
+
+USER_ERRORS = [UserError, UserKeyError, UserLookupError, UserAttributeError, UserStopIteration, UserRuntimeError]
+
+
 class Frame:
     tolerant = False
 
@@ -222,7 +246,7 @@ class Run:
                 self.viol('class_mapping_is_parent_extended_and_overridden_by_own_and_bases_unaltered',
                           where=where, cls=j, got=None if got is None else dict(got), expected=exp)
 
-    # ---- (b) histories --------------------------------------------------------------------------------
+# ---- (b) histories --------------------------------------------------------------------------------
     def on_call(self, h, method, args, kwargs, defcls=None):
         if not self.stack:
             self.viol('callback_outside_any_dispatch', handler=repr(h), method=method)
@@ -234,7 +258,9 @@ class Run:
         if self.raise_in == h.ix and len(self.stack) == 1 and self.stack[0].tolerant:
             self.raise_in = None
             self.flags['callback_raised_during_a_release'] += 1
-            raise UserError('callback failed')
+            # what user code raises is often one of the built-in exception types (a failed lookup, an exhausted
+            # iterator): none of them means anything to the dispatcher
+            raise USER_ERRORS[(h.ix + len(self.stack[0].calls)) % len(USER_ERRORS)]('callback failed')
         script = self.scripts.pop(h.ix, None)
         if script is not None and len(self.stack) < 3:
             self.flags['script_ran'] += 1
